@@ -169,7 +169,7 @@ Print Assumptions C02_only_absence_is_reported_as_missing.
    "the parse of the verified bytes" by an oracle: for the usual layout (first signature met, transforms = enveloped-signature
    + one canonicalisation c0) it is the PREPARED form of the root minus exactly that Signature element, normalised -- a
    function of the presented tree; only digest, signature check and certificate parser remain oracles.  Premise
-   [c14n_wf_elem p]: see Prop_DSIG.DSIG_canonical_bytes_reparse_to_prepared_tree. *)
+   [c14n_wf] (on the prepared tree p, or simply on the presented root): see Prop_DSIG.DSIG_canonical_bytes_reparse_to_prepared_tree. *)
 From V Require Import P_DsigExact Canon XmlTok P_XmlTok DsigReader P_DsigReader.
 Theorem C02_honoured_tree_is_prepared_signed_tree : forall digest sig_ok parse_cert store now root v,
   dsig_validate_reader digest sig_ok parse_cert store now root = DOk v ->
@@ -183,7 +183,8 @@ Theorem C02_honoured_tree_is_prepared_signed_tree : forall digest sig_ok parse_c
          remove_at_path root (fs_path f) = Some body /\ canon_prep c0 body = Some p /\
          base64_decode (ref_digest_value r) = Some want /\ digest (ref_digest_alg r) (c14n_write p) = Some want /\
          read_tree (c14n_write p) = Ok v /\
-         (c14n_wf_elem p = true -> v = normalise p)).
+         (c14n_wf_elem p = true -> v = normalise p) /\
+         (c14n_wf root = true -> v = normalise p)).
 Proof. exact dsig_sound_reader_first_signature. Qed.
 Print Assumptions C02_honoured_tree_is_prepared_signed_tree.
 
